@@ -412,7 +412,7 @@ func (c *Ctx) bodyElements(ia *interpAnchors) {
 	// deferred construction: while procStart is non-empty the object is pushed, not dispatched (brace marker branch dominates header)
 	found := false
 	for _, cd := range entryConds(hdr) {
-		if m, ok := asCmp(cd); ok && lenOfField(m.x, ia.T, "procStart") {
+		if m, ok := asCmp(cd); ok && lenOfField(m.x, ia.T, c.fld("intp.procStart")) {
 			if k, isC := constInt(m.y); isC && ((m.op == token.LEQ && k == 0) || (m.op == token.EQL && k == 0) || (m.op == token.LSS && k == 1)) {
 				found = true
 			}
